@@ -281,6 +281,10 @@ class TypeParameter(AbstractType):
         # that is type variable-free.
         # We do this, because the bound would contain type variables which
         # are out of scope in the context where we use this bound.
+        if factory is None:
+            # No factory (has_bound_of only needs the type variables
+            # involved): there is no top type to project to, keep the bound.
+            return t
         return t.to_type_variable_free(factory)
 
     def is_subtype(self, other):
